@@ -201,6 +201,14 @@ theorem tame_taskCancel (p : Pool) (t) : Tame p (p.taskCancel t) := by
           (tame_modTask p t _ (fun _ => rfl) (fun _ => Or.inl rfl)) (tame_schedTask _ _)
       · exact tame_modTask p t _ (fun _ => rfl) (fun _ => Or.inl rfl)
 
+theorem tame_cancelTask (p : Pool) (t) : Tame p (p.cancelTask t) := by
+  unfold cancelTask
+  split
+  · exact Tame.refl p
+  · split
+    · exact tame_modTask p t _ (fun _ => rfl) (fun _ => Or.inl rfl)
+    · exact tame_taskCancel p t
+
 theorem grantsL_cancelWaiterL (m : Nat) (ws : List Waiter) : grantsL (cancelWaiterL m ws) = grantsL ws := by
   induction ws with
   | nil => rfl
